@@ -78,7 +78,7 @@ mod types;
 // Re-export public API
 pub use decryption::{decrypt_block, decrypt_dword};
 pub use encryption::encrypt_block;
-pub use hash::hash_string;
+pub use hash::{file_key, hash_string};
 pub use jenkins::{jenkins_hashlittle2 as het_hash, jenkins_one_at_a_time as jenkins_hash};
 pub use signature::{
     DIGEST_UNIT_SIZE, STRONG_SIGNATURE_HEADER, STRONG_SIGNATURE_SIZE, SignatureInfo, SignatureType,
